@@ -34,3 +34,8 @@ claim("C14", "taint/guard analysis of the decoder over LLVM IR (who-may-touch th
       "Decides on every path: the input pointer reaches only rf_pack_init and the cursor object is opaque to the decoder; the cursor is sticky and guarded (so truncation cannot yield success); success returns the consumed count taken after the last item and the shortest successful walk equals RF_WAVHEADER_MIN_SIZE; every input-derived length is bounded before it advances the cursor; validate/get_format/tostring have no loop, total switches and zero-guarded divisions.",
       "Agreement with an independent reference parser on all byte strings is NOT decided. Relies on C12 for the memory safety of rf_(un)pack_*; libc formatter assumed safe. Trusted: clang 14 front end, ir2json, path enumerator with the stated call-effect table.",
       "DESIGN.md section 2 C14")
+claim("C17", "abstract interpretation of the IR expression in Interval x exact linear forms with quotient/remainder atoms; congruence by Gaussian elimination over Z_p; witness by modular inverse on refutation",
+      "proof",
+      "Proves for all 2^31-2 valid states at once: no machine-width wrap, result congruent to 16807*seed modulo 2^31-1, result within [0,p] on every path (hence [1,p-1] by the primality lemma), stored state == returned value. No state is enumerated; a failed obligation is turned into a concrete seed through the modular inverse of 16807.",
+      "Trusted: the lemma (p prime, re-checked arithmetically; p does not divide 16807), clang 14 front end, ir2json, the domain's transfer functions.",
+      "DESIGN.md section 2 C17")
